@@ -22,6 +22,13 @@ def nest(open_, close, k, core):
     return open_ * k + core + close * k
 
 
+def _nest_atomic(k):
+    inner = "int z;"
+    for i in range(k):
+        inner = "_Atomic(struct { %s }) a%d, b%d;" % (inner, i, i)
+    return inner
+
+
 FAMILIES = {
     # repetition
     "rep-decl": lambda k: rep("int a%d;\n" % 0, k).replace("a0", "a") if False else "".join("int a%d;\n" % i for i in range(k)),
@@ -91,6 +98,8 @@ FAMILIES = {
     "nest-struct-multi-declarator": lambda k: "struct {" * k + "int x;" + "} a, b;" * k,
     "rep-struct-members-declarators": lambda k: "struct S {" + "".join("int m%d;" % i for i in range(k)) + "} " + ",".join("v%d" % i for i in range(k)) + ";",
     "rep-enum-declarators": lambda k: "enum E {" + ",".join("K%d" % i for i in range(k)) + "} " + ",".join("*e%d" % i for i in range(k)) + ";",
+    "nest-atomic-struct-multi-declarator": lambda k: _nest_atomic(k),
+    "rep-atomic-declarators": lambda k: "_Atomic(int *) " + ",".join("a%d" % i for i in range(k)) + ";",
     "rep-sizeof-complit": lambda k: "void f(void) {" + "n += sizeof (int[2]){1, 2};" * k + "}",
 }
 NESTING = {n for n in FAMILIES if n.startswith("nest-")}
